@@ -503,6 +503,9 @@ def run(ctx) -> None:
     ctx.rule(rule_presence)
     ctx.rule(rule_config_keys)
     ctx.rule(rule_wire)
+    from . import c17 as _c17
+    _t = _c17.build_taint(ctx)
+    ctx.rule(_c17.rule_stable_getter, _t, "C01")
     ctx.chk.assumptions = ["Python's C3 linearisation of type(name, (MasterBootImage, *mixins)) as modelled", "not decided: payload equality, byte-for-byte re-export, relocation table location, TrustZone preset contents"]
 
 
